@@ -249,19 +249,13 @@ func propC08(c *Ctx) {
 	fCMax := w.Field("jrpc2", "cache", "maxreads")
 	{
 		// NumHash.get: cached return (ok == true) is on the false edge of nreads >= maxreads and after nreads++
-		_, under := cmpEdges(nhGet, func(b *ssa.BinOp) bool {
-			return b.Op == token.GEQ && isLoadOfField(b.X, fNHReads) && isLoadOfField(b.Y, fNHMax)
-		})
+		isReads := func(v ssa.Value) bool { return isFieldArg(v, fNHReads) }
+		isMax := func(v ssa.Value) bool { return isFieldArg(v, fNHMax) }
+		_, under := cmpEdgesV(nhGet, token.GEQ, isReads, isMax)
 		var inc ssa.Instruction
-		allInstrs(nhGet, func(in ssa.Instruction) {
-			if st, ok := in.(*ssa.Store); ok {
-				if f, _ := fieldOf(st.Addr); f == fNHReads {
-					if b, ok := st.Val.(*ssa.BinOp); ok && b.Op == token.ADD && isLoadOfField(b.X, fNHReads) {
-						inc = st
-					}
-				}
-			}
-		})
+		if incs, _ := fieldOps(nhGet, fNHReads); len(incs) > 0 {
+			inc = incs[len(incs)-1]
+		}
 		n := 0
 		for _, r := range returnsOf(nhGet) {
 			vals := returnValues(r)
@@ -275,9 +269,7 @@ func propC08(c *Ctx) {
 			c.Violation("R8.3", "NumHash.get/cached-return", nhGet.Pos(), "no cached return found")
 		}
 		// expiry arm resets the pair
-		over, _ := cmpEdges(nhGet, func(b *ssa.BinOp) bool {
-			return b.Op == token.GEQ && isLoadOfField(b.X, fNHReads) && isLoadOfField(b.Y, fNHMax)
-		})
+		over, _ := cmpEdgesV(nhGet, token.GEQ, isReads, isMax)
 		okReset := len(over) > 0
 		for _, e := range over {
 			resetNum := false
@@ -324,7 +316,9 @@ func propC08(c *Ctx) {
 			if st, ok := in.(*ssa.Store); ok {
 				switch f, _ := fieldOf(st.Addr); {
 				case f == fSegReads:
-					inc = st
+					if k, isK := constInt(st.Val); !isK || k != 0 {
+						inc = st
+					}
 				case fDone != nil && f == fDone:
 					if k, isC := st.Val.(*ssa.Const); isC && k.Value != nil && k.Value.String() == "true" {
 						doneStores = append(doneStores, st)
@@ -332,6 +326,11 @@ func propC08(c *Ctx) {
 				}
 			}
 		})
+		for _, f := range reg.Funcs() {
+			if incs, _ := fieldOps(f, fSegReads); len(incs) > 0 && inc == nil {
+				inc = incs[0] // through a counter method (seg.nreads.take())
+			}
+		}
 		var doneT []Edge
 		reg.AllInstrs(func(in ssa.Instruction) {
 			if u, ok := in.(*ssa.UnOp); ok && u.Op == token.MUL {
@@ -384,9 +383,7 @@ func propC08(c *Ctx) {
 			}
 		}
 		c.Check("R8.3", "cache.get/prune-before-lookup", get.Pos(), len(pr) == 1 && lookup != nil && reg.Dominates(pr[0], lookup), "segments whose budget is used up are evicted before the look-up")
-		over, _ := cmpEdges(prune, func(b *ssa.BinOp) bool {
-			return b.Op == token.GEQ && isLoadOfField(b.X, fSegReads) && isLoadOfField(b.Y, fCMax)
-		})
+		over, _ := cmpEdgesV(prune, token.GEQ, func(v ssa.Value) bool { return isFieldArg(v, fSegReads) }, func(v ssa.Value) bool { return isFieldArg(v, fCMax) })
 		okDel := len(over) > 0
 		for _, e := range over {
 			del := false
